@@ -1732,8 +1732,9 @@ def compare_with_ctl(out, rp):
         cm = canon_model({"apps": [], "used": [], "queues": o["queues"], "pending": o["pending"], "subs": []})
         if cm["queues"] != st.get("obs", {}).get("queues", cm["queues"]) or \
                 cm["pending"] != st.get("obs", {}).get("pending", cm["pending"]):
-            return {"step": n, "tok": st["tok"], "what": "queues / pending", "model": [cm["queues"], cm["pending"]],
-                    "code": [st["obs"]["queues"], st["obs"]["pending"]]}
+            return {"step": n, "tok": st["tok"], "what": "queues / pending",
+                    "model": repr([cm["queues"], cm["pending"]])[:1200],
+                    "code": repr([st["obs"]["queues"], st["obs"]["pending"]])[:1200]}
         if raised:
             return None
     return None
